@@ -20,9 +20,10 @@ Lemma be16_join x : x < 65536 -> 256 * ((x / 256) mod 256) + x mod 256 = x.
 Proof. intros H. rewrite N.add_comm. apply le16_join. exact H. Qed.
 
 (* ------------------------------------------------------------------ SandNet *)
-Lemma sandnet_roundtrip g u port f old :
+Lemma sandnet_roundtrip_gen g u hg hu port f old :
   1 <= len f -> len f <= 512 -> g < 256 -> u < 256 ->
-  sandnet_handle (sandnet_build g u port f) g u old = RHandled (expect_full f).
+  sandnet_handle (sandnet_build g u port f) hg hu old =
+    if (g =? hg) && (u =? hu) then RHandled (expect_full f) else RDropped.
 Proof.
   intros H1 H2 Hg Hu.
   assert (E : sandnet_build g u port f = [3; 0; u8 g; u8 u; u8 port] ++ f).
@@ -37,18 +38,26 @@ Proof.
   destruct (N.leb_spec (5 + len f - 2) 3) as [X|_]; [lia|].
   replace (rd (h ++ f) 2) with (Some (u8 g)) by reflexivity.
   replace (rd (h ++ f) (2 + 1)) with (Some (u8 u)) by reflexivity.
-  rewrite !u8_id by lia. rewrite !N.eqb_refl. cbn [andb negb].
+  rewrite !u8_id by lia.
+  destruct ((g =? hg) && (u =? hu)); cbn [negb]; [|reflexivity].
   replace (5 + len f - 2 - 3) with (len f) by lia.
   change (2 + 3) with (len h). rewrite slice_app_exact0.
   unfold buf_set, expect_full. rewrite take_all by (unfold DMX_UNIVERSE_SIZE; lia). reflexivity.
 Qed.
 
-(* ------------------------------------------------------------------ ESP Net *)
-Lemma espnet_roundtrip u f old :
-  1 <= len f -> len f <= 512 -> u < 256 ->
-  espnet_handle (espnet_build u f) u old = RHandled (expect_full f).
+Lemma sandnet_roundtrip g u port f old :
+  1 <= len f -> len f <= 512 -> g < 256 -> u < 256 ->
+  sandnet_handle (sandnet_build g u port f) g u old = RHandled (expect_full f).
 Proof.
-  intros H1 H2 Hu.
+  intros. rewrite sandnet_roundtrip_gen by assumption. rewrite !N.eqb_refl. reflexivity.
+Qed.
+
+(* ------------------------------------------------------------------ ESP Net *)
+Lemma espnet_roundtrip_gen u hu f old :
+  len f <= 512 -> u < 256 ->
+  espnet_handle (espnet_build u f) hu old = if u =? hu then RHandled (expect_full f) else RDropped.
+Proof.
+  intros H2 Hu.
   set (h := [69; 83; 68; 68; u8 u; 0; 1; (len f / 256) mod 256; len f mod 256]).
   assert (E : espnet_build u f = h ++ f ++ zeros (512 - len f)).
   { unfold espnet_build. rewrite take_all by (unfold DMX_UNIVERSE_SIZE; lia).
@@ -65,10 +74,18 @@ Proof.
   replace (rd (h ++ f ++ zeros (512 - len f)) 6) with (Some 1) by reflexivity.
   replace (rd16be (h ++ f ++ zeros (512 - len f)) 7)
     with (Some (256 * ((len f / 256) mod 256) + len f mod 256)) by reflexivity.
-  rewrite be16_join by lia. rewrite u8_id, N.eqb_refl by lia. cbn [negb].
+  rewrite be16_join by lia. rewrite u8_id by lia.
+  destruct (u =? hu); cbn [negb]; [|reflexivity].
   change (521 - 9) with 512. rewrite N.min_r by lia. change (1 =? 1) with true. cbv iota.
   change 9 with (len h). rewrite slice_app_exact.
   unfold buf_set, expect_full. rewrite take_all by (unfold DMX_UNIVERSE_SIZE; lia). reflexivity.
+Qed.
+
+Lemma espnet_roundtrip u f old :
+  1 <= len f -> len f <= 512 -> u < 256 ->
+  espnet_handle (espnet_build u f) u old = RHandled (expect_full f).
+Proof.
+  intros. rewrite espnet_roundtrip_gen by assumption. rewrite N.eqb_refl. reflexivity.
 Qed.
 
 (* ------------------------------------------------------------------ Pathport *)
@@ -87,9 +104,10 @@ Proof.
   cbv beta in E. apply andb_prop in E as [A B]. split; lia.
 Qed.
 
-Lemma pathport_roundtrip dev seq u f old :
+Lemma pathport_roundtrip_gen dev seq u hu f old :
   1 <= len f -> len f <= 512 -> u <= 127 ->
-  pathport_handle (pathport_build dev seq u f) dev u old = RHandled (expect_overlay 0 f old).
+  pathport_handle (pathport_build dev seq u f) dev hu old =
+    if u =? hu then RHandled (expect_overlay 0 f old) else RDropped.
 Proof.
   intros H1 H2 Hu.
   destruct (pad4 (len f) H2) as [P1 P2]. set (padded := N.land (len f + 3) 4294967292) in *.
@@ -138,11 +156,18 @@ Proof.
   generalize 127%nat. intros fuel. cbn [pp_loop]. change PP_MAX_UNIVERSES with 127. change DMX_UNIVERSE_SIZE with 512.
   destruct (N.ltb_spec 0 (len f)) as [_|X]; [|lia].
   destruct (N.leb_spec u 127) as [_|X]; [|lia]. cbn [andb].
-  rewrite N.eqb_refl. rewrite N.sub_0_r, N.min_l by lia. rewrite N.sub_diag.
-  change (0 <? 0) with false. cbn [andb].
+  rewrite N.sub_0_r, N.min_l by lia. rewrite N.sub_diag.
+  destruct (u =? hu); change (0 <? 0) with false; cbn [andb]; [|reflexivity].
   unfold t. rewrite take_app_exact.
   rewrite set_range_overlay by (change DMX_UNIVERSE_SIZE with 512; lia). cbn [fst].
   unfold expect_overlay, overlay. reflexivity.
+Qed.
+
+Lemma pathport_roundtrip dev seq u f old :
+  1 <= len f -> len f <= 512 -> u <= 127 ->
+  pathport_handle (pathport_build dev seq u f) dev u old = RHandled (expect_overlay 0 f old).
+Proof.
+  intros. rewrite pathport_roundtrip_gen by assumption. rewrite N.eqb_refl. reflexivity.
 Qed.
 
 (* ------------------------------------------------------------------ ShowNet *)
@@ -157,10 +182,10 @@ Proof.
   rewrite Ha, Hb. reflexivity.
 Qed.
 
-Lemma shownet_roundtrip ip name seq u f old :
+Lemma shownet_roundtrip_gen ip name seq u hu f old :
   1 <= len f -> len f <= 512 -> u < 8 ->
   exists p, shownet_build ip name seq u f = Some p /\
-            shownet_handle p u old = RHandled (expect_overlay 0 f old).
+            shownet_handle p hu old = if u =? hu then RHandled (expect_overlay 0 f old) else RDropped.
 Proof.
   intros H1 H2 Hu.
   destruct (rle_encode_complete f 1310 H1 H2) as (bytes & He & Hb2 & Hb3); try lia.
@@ -214,7 +239,8 @@ Proof.
   destruct (N.ltb_spec (41 + E - 41) (0 + E)) as [X|_]; [lia|].
   destruct (N.eqb_spec (len f) 0) as [X|_]; [lia|].
   replace (ns - 1) with (u * 512) by (unfold ns; lia).
-  rewrite N.mod_mul, N.div_mul by lia. rewrite N.eqb_refl. cbn [negb].
+  rewrite N.mod_mul, N.div_mul by lia.
+  destruct (u =? hu); cbn [negb]; [|reflexivity].
   assert (SL : slice (A ++ B) (47 + 0) E = data).
   { rewrite EB, app_assoc. rewrite <- Ld.
     replace (47 + 0) with (len (A ++ H41)) by (rewrite len_app, LA, LH; reflexivity).
@@ -225,4 +251,13 @@ Proof.
     rewrite set_range_overlay by (change DMX_UNIVERSE_SIZE with 512; lia). cbn [fst]. reflexivity.
   - destruct (N.eqb_spec E (len f)) as [Y|_]; [lia|]. cbn [negb].
     rewrite (rle_lossless f 1310 bytes E 0 old) by (try lia; exact He). reflexivity.
+Qed.
+
+Lemma shownet_roundtrip ip name seq u f old :
+  1 <= len f -> len f <= 512 -> u < 8 ->
+  exists p, shownet_build ip name seq u f = Some p /\
+            shownet_handle p u old = RHandled (expect_overlay 0 f old).
+Proof.
+  intros H1 H2 Hu. destruct (shownet_roundtrip_gen ip name seq u u f old H1 H2 Hu) as (p & B & R).
+  exists p. split; [exact B|]. rewrite R, N.eqb_refl. reflexivity.
 Qed.
